@@ -15,40 +15,40 @@ CLAIMS = {
  "C03": ("Structural clauses only: no bn_/ec_/ecdsa_ status dropped in ecdsa.h (a failed internal computation cannot be followed by success), verifier/signer success paths dominated by range/zero/infinity/equality tests with correct polarity, switch(curve->algo) exhaustive. Standard conformance of the accept set is NOT decided. Added after seeding: aliased arguments (hash == sign_r etc.): no use of the other name after a write through one.",
          "Trusts clang 14 CFG, the extractor, and the derived status-function set (0/errno convention).",
          "static analysis: status-discipline dataflow + guard dominance over clang CFG"),
- "C04": ("Zeroisation clause decided completely (every *_final wipes the whole context via volatile memset on all paths as last access) in every SIMD/small-table variant; constant tables vs. independently derived values. Digest equality is NOT decided. Added after seeding: block-load macros of the SIMD transforms read lanes 0..N-1 once each, sibling macros agree (SHA-NI variant is part of the quick tier).",
+ "C04": ("Zeroisation clause decided completely (every *_final wipes the whole context via volatile memset on all paths as last access) in every SIMD/small-table variant; constant tables vs. independently derived values. Digest equality is NOT decided. Added after seeding: block-load macros of the SIMD transforms read lanes 0..N-1 once each, sibling macros agree (SHA-NI variant is part of the quick tier). Round 3: in `len & ~mask` the complement has the width of the length (R-WIDTH complement mask).",
          "Trusts clang 14 CFG/post-dominators computed in python; a call through a volatile function pointer is not elidable.",
          "static analysis: post-dominance of volatile wipe call, constant-table comparison"),
  "C05": ("Structural clauses only: every acyclic path of tpt_msg_send falls into one of the seven documented outcomes with the stated (return class, number of direct callback calls): at most one direct call, none when a failure is returned, each only under the flag that asks for it; packet atomicity preconditions (sizeof(packet) <= PIPE_BUF, one whole-packet write whose result is compared with that size, O_NONBLOCK pipe, read buffer a whole number of packets); dispatch only of magic+checksum verified packets with non-NULL callback, once per packet. Exactly-once / ordering / routing under concurrent senders is NOT decided. Added after seeding: tpt_is_running() holds exactly for STARTING and RUNNING.",
          "Trusts clang 14 CFG; POSIX pipe atomicity for writes <= PIPE_BUF; infeasible paths can only add rows that must still classify.",
          "static analysis: acyclic CFG path enumeration with per-path summaries, dominance/edge-removal reachability, compile-time probes"),
- "C08": ("Structural/specification clauses only (neither cipher is built by the test suite): ChaCha sigma/tau, the 64 statements of the double round (operands, rotations, column/diagonal index tuples), rounds loop, key/counter/IV word layout for both key sizes, HChaCha/XChaCha wiring, block macro word coverage, sibling agreement of the three block variants incl. counter carry, alignment dispatch; GOST 28147 round/key schedule and composition, f function in both table builds, table expansion formula (abstract evaluation with a synthetic S-box), S-box rows are permutations, aligned/unaligned and encrypt/decrypt I/O agreement; context wipes. Key-stream / cipher-text values are NOT decided. Added after seeding: S-box parameter sets equal the reference copy of the standards' tables (refdata/gost28147_sboxes.json, provenance recorded).",
+ "C08": ("Structural/specification clauses only (neither cipher is built by the test suite): ChaCha sigma/tau, the 64 statements of the double round (operands, rotations, column/diagonal index tuples), rounds loop, key/counter/IV word layout for both key sizes, HChaCha/XChaCha wiring, block macro word coverage, sibling agreement of the three block variants incl. counter carry, alignment dispatch; GOST 28147 round/key schedule and composition, f function in both table builds, table expansion formula (abstract evaluation with a synthetic S-box), S-box rows are permutations, aligned/unaligned and encrypt/decrypt I/O agreement; context wipes. Key-stream / cipher-text values are NOT decided. Added after seeding: S-box parameter sets equal the reference copy of the standards' tables (refdata/gost28147_sboxes.json, provenance recorded). Round 3: chacha_str_data_crypt writes dst[0..bytes) once each in order over 16 call classes (partial evaluation); R-TBAA: declared non-character objects of both headers are accessed only through compatible, character, may_alias or vector lvalues (strict aliasing; the ChaCha block macros were repaired, fix c7389f1).",
          "Trusts clang 14 front end; reference structure from RFC 8439 / RFC 5830.",
          "static analysis: statement-sequence comparison against a generated reference, canonicalised load/store sibling comparison, abstract expression evaluation, post-dominance of wipes"),
- "C09": ("Structural clauses only: every read of the 16 *_be/*_le entry points through a pointer whose size the caller passed stays inside that size; exporter/importer layout agreement for all encodings (size, prefix, coordinate offsets and lengths, parity bit handed to the root selection, neutral element), rejection of unknown sizes/prefixes, reported size equals bytes written; with validation enabled every accepting importer path passes ec_point_check_as_pub_key (on-curve and order checks) and a failing status cannot reach success; root parity selection in ec_point_restore_y_by_x; point->infinity defined before validation on finite arms; _be/_le sibling agreement. Numerical agreement of key generation / Diffie-Hellman with a reference and DH symmetry are NOT decided. Added after seeding: curve equation and coordinate ranges on every accepting path of ec_point_check_affine (polynomial domain); curve table incl. cofactor.",
+ "C09": ("Structural clauses only: every read of the 16 *_be/*_le entry points through a pointer whose size the caller passed stays inside that size; exporter/importer layout agreement for all encodings (size, prefix, coordinate offsets and lengths, parity bit handed to the root selection, neutral element), rejection of unknown sizes/prefixes, reported size equals bytes written; with validation enabled every accepting importer path passes ec_point_check_as_pub_key (on-curve and order checks) and a failing status cannot reach success; root parity selection in ec_point_restore_y_by_x; point->infinity defined before validation on finite arms; _be/_le sibling agreement. Numerical agreement of key generation / Diffie-Hellman with a reference and DH symmetry are NOT decided. Added after seeding: curve equation and coordinate ranges on every accepting path of ec_point_check_affine (polynomial domain); curve table incl. cofactor. Round 3: the scalar handed to a point multiplication is reduced modulo the group order (R-DOMAIN).",
          "Trusts clang 14 front end/CFG; bn_import_*_bin reads exactly its length argument, bn_export_*_bin writes exactly its length argument; unsized output buffers are as large as the header comment demands.",
          "static analysis: relational abstract interpretation of the byte API, partial evaluation of exporter and importer CFGs over finite argument classes (writer/reader table agreement), must-pass-through on the CFG, sibling comparison"),
- "C15": ("Structural clauses only: pointer/length agreement at call sites with constant lengths; every attribute class of radius_pkt_attr_add can succeed; the byte streams fed to MD5/HMAC-MD5 for the Request/Response Authenticator and the Message-Authenticator equal the RFC 2865/2866/3579/5176 streams for all 14 packet codes x authenticator mode x request presence x in-place output (342 cases), unknown codes fail, digest lands in the output argument; RFC 2865 5.2 password hiding equations for 1..3 blocks in encode and decode, separate and in-place buffers; DNS question/RR writer-reader agreement of field addresses, widths, byte orders and sizes; RADIUS append keeps header length and attribute length in step; QDCOUNT bumped exactly once on success; 16 header accessors are siblings; digests compared with timingsafe_bcmp. Whole-message byte identity with an independent RFC encoder, digest values and name round trips are NOT decided.",
+ "C15": ("Structural clauses only: pointer/length agreement at call sites with constant lengths; every attribute class of radius_pkt_attr_add can succeed; the byte streams fed to MD5/HMAC-MD5 for the Request/Response Authenticator and the Message-Authenticator equal the RFC 2865/2866/3579/5176 streams for all 14 packet codes x authenticator mode x request presence x in-place output (342 cases), unknown codes fail, digest lands in the output argument; RFC 2865 5.2 password hiding equations for 1..3 blocks in encode and decode, separate and in-place buffers; DNS question/RR writer-reader agreement of field addresses, widths, byte orders and sizes; RADIUS append keeps header length and attribute length in step; QDCOUNT bumped exactly once on success; 16 header accessors are siblings; digests compared with timingsafe_bcmp. Whole-message byte identity with an independent RFC encoder, digest values and name round trips are NOT decided. Round 3: byte-order typestate of every wire field access (R-ENDIAN): no arithmetic on and no host-order store into a network-order field; the RFC's multi-byte fields must be converted somewhere (non-vacuity).",
          "Trusts clang 14 front end/CFG; the RFC streams as transcribed in props/c15.py; MD5/HMAC contexts behave as init/update*/final (C07).",
          "static analysis: partial evaluation of the builder/authenticator CFGs per argument class with a symbolic byte-content model (hash-input streams, hiding equations, writer/reader layouts), call-site pointer/length rule, path enumeration, sibling comparison"),
- "C17": ("Structural clauses only: ini_buf_gen's writes are guarded by offset + pending <= buf_size (the clause 'generation into a smaller buffer fails without writing past it'); ini_buf_calc_size adds per line what ini_buf_gen writes per line under the same skip condition; the case-sensitive and case-insensitive lookup pairs use the right comparator and are otherwise identical; realloc_items' success contract (*allocated > count); every slot store / slot-opening memmove in ini.c is dominated by a successful reservation for the current count and a failing reservation leaves; no free of a line already stored in the array; interior pointers re-derived after a record is reallocated. Ordered-map behaviour over operation histories and text round-trip equality are NOT decided.",
+ "C17": ("Structural clauses only: ini_buf_gen's writes are guarded by offset + pending <= buf_size (the clause 'generation into a smaller buffer fails without writing past it'); ini_buf_calc_size adds per line what ini_buf_gen writes per line under the same skip condition; the case-sensitive and case-insensitive lookup pairs use the right comparator and are otherwise identical; realloc_items' success contract (*allocated > count); every slot store / slot-opening memmove in ini.c is dominated by a successful reservation for the current count and a failing reservation leaves; no free of a line already stored in the array; interior pointers re-derived after a record is reallocated. Ordered-map behaviour over operation histories and text round-trip equality are NOT decided. Round 3: R-BOUND follows every store of a generator iteration, not only the memcpy.",
          "Trusts clang 14 front end/CFG; C semantics of realloc/reallocarray/free; ini->lines[] capacity is maintained only by realloc_items.",
          "static analysis: guard evaluation over a finite grid covering every ordering of the compared quantities (partial evaluation), dominance and kill-path reachability on the CFG, sibling comparison, per-iteration effect counting"),
  "C20": ("Structural clauses only: http_req_sec_chk's rule section over all 54 combinations of Host/Content-Length/Transfer-Encoding counts and method accepts exactly the blocks without a duplicate/conflicting framing pattern, each refusal with its own code; the counted names are the RFC names with matching lengths; the byte scan classifies all 256 byte values (with each relevant next byte and at the end of the block) as the property demands; http_hdr_val_get_ex treats CRLF+SP/HTAB as a continuation and anything else as the field end (all 256 values), reports a field only when the case-insensitive comparator matched; http_hdr_val_get_count's loop structure; http_get_method_fast classifies every table spelling, an unknown and a prefix correctly. That every returned span equals the RFC 7230/3986 delimitation, path trimming and the query helpers are NOT decided.",
          "Trusts clang 14 front end/CFG; memcmp/mem_cmpin/mem_find* as documented (bodies under C12/C13).",
          "static analysis: partial evaluation of the checker's CFG over finite argument classes and a two/four byte abstract window (exhaustive over byte values), guard dominance, literal/length agreement, table agreement"),
- "C10": ("Structural clauses only: the shared countdown field is accessed under its lock after publication (lock-set dataflow), pre-publication accesses cannot follow a send; no dereference of the shared record after the countdown's unlock (the clause 'does not touch the caller's memory afterwards'); the heap record of the completion form is freed/handed over on every path; per-target sent/failed accounting and returned failure count; single completion site guarded by zero that frees after the user callback; one-by-one token order. Once-per-thread / completion-after-all under interleavings is NOT decided. Added after seeding: in one-by-one mode the caller's own callback is served exactly once (never with SELF_SKIP) over all SELF_SKIP/SELF_DIRECT combinations.",
+ "C10": ("Structural clauses only: the shared countdown field is accessed under its lock after publication (lock-set dataflow), pre-publication accesses cannot follow a send; no dereference of the shared record after the countdown's unlock (the clause 'does not touch the caller's memory afterwards'); the heap record of the completion form is freed/handed over on every path; per-target sent/failed accounting and returned failure count; single completion site guarded by zero that frees after the user callback; one-by-one token order. Once-per-thread / completion-after-all under interleavings is NOT decided. Added after seeding: in one-by-one mode the caller's own callback is served exactly once (never with SELF_SKIP) over all SELF_SKIP/SELF_DIRECT combinations. Round 3: the one-by-one walk skips the originator and nobody else (finite-domain evaluation).",
          "Trusts clang 14 CFG, pthread mutex semantics, tpt_msg_send returning 0 = ownership transferred.",
          "static analysis: lock-set dataflow, reachability after release point, path enumeration for ownership and accounting"),
- "C06": ("Structural clauses only, Linux/epoll branch (the kqueue branch is not compiled here): timer unit-conversion constants coherent for s/ms/us/ns; registrations reach tpt_ev_post only after tpt_ev_validate returned 0; validator exhaustive over event kinds with failing default, per-kind fflags mask equals the defined flags, foreign set-flags and ONESHOT+DISPATCH refused; programmed value definitely assigned; DISABLED gate / one-shot forget / dispatch mark / EOF / ERROR stores on every path to the callback; interval zero iff one-shot; ABSTIME<->clock agreement; descriptors closed on failing paths; tpdata bit fields disjoint. Firing behaviour over registration histories is NOT decided. Added after seeding: event-record fields travel through helper parameters of the same width, no implicit narrowing on the way to tpt_ev_post.",
+ "C06": ("Structural clauses only, Linux/epoll branch (the kqueue branch is not compiled here): timer unit-conversion constants coherent for s/ms/us/ns; registrations reach tpt_ev_post only after tpt_ev_validate returned 0; validator exhaustive over event kinds with failing default, per-kind fflags mask equals the defined flags, foreign set-flags and ONESHOT+DISPATCH refused; programmed value definitely assigned; DISABLED gate / one-shot forget / dispatch mark / EOF / ERROR stores on every path to the callback; interval zero iff one-shot; ABSTIME<->clock agreement; descriptors closed on failing paths; tpdata bit fields disjoint. Firing behaviour over registration histories is NOT decided. Added after seeding: event-record fields travel through helper parameters of the same width, no implicit narrowing on the way to tpt_ev_post. Round 3: the time-unit switch is recognised by role and evaluated for every unit x {relative, ABSTIME}.",
          "Trusts clang 14 CFG; constants evaluated by the compiler in a probe unit with the real flags; documented epoll/timerfd semantics.",
          "static analysis: constant extraction from case arms, guard evaluation over finite flag domains, cut-set reachability, path enumeration, compile-time probes"),
- "C11": ("Structural clauses only: every field-held resource (pool allocation, epoll fd, both pipe ends, queue, thread) has a release of that field on the tp_destroy path; failing exits of tp_create / tpt_msg_queue_create / tpt_data_init release what they acquired; the self-join guard (EDEADLK) dominates every join/poll/release and a failed wait releases nothing; worker hooks bracket the loop exactly once; the virtual thread's start hook follows its successful init and its stop hook runs only if it was started; the shutdown latch is atomic. Termination / no late callback for every schedule is NOT decided. Added after seeding: once the virtual thread's start hook may have run, every failing exit of tp_create finds the 'started' state.",
+ "C11": ("Structural clauses only: every field-held resource (pool allocation, epoll fd, both pipe ends, queue, thread) has a release of that field on the tp_destroy path; failing exits of tp_create / tpt_msg_queue_create / tpt_data_init release what they acquired; the self-join guard (EDEADLK) dominates every join/poll/release and a failed wait releases nothing; worker hooks bracket the loop exactly once; the virtual thread's start hook follows its successful init and its stop hook runs only if it was started; the shutdown latch is atomic. Termination / no late callback for every schedule is NOT decided. Added after seeding: once the virtual thread's start hook may have run, every failing exit of tp_create finds the 'started' state. Round 3: no failing exit of tp_create lies between the 'started' store and the start hook.",
          "Trusts clang 14 CFG and the direct-call graph (function pointers are only user hooks/callbacks).",
          "static analysis: acquire/release pairing over the call graph, path enumeration of failing exits, guard dominance, race lint on life-cycle latch"),
  "C12": ("Per memory access, for every input: relational abstract interpretation (linear inequalities over cursors, sizes and offsets; strides; trace partitioning) proves that each dereference, subscript and library copy related to a caller-supplied (pointer,size) pair, local array or constant table stays inside it; a bound that is present but too weak by a small constant is reported; what the domain cannot bound is listed as undecided and NOT claimed. Also loop progress, short-circuit evaluation order, banned unbounded C-string calls, recursion depth. Added after seeding: the digit-count table pow10lst[k] = 10^k (shared with C14).",
          "Trusts clang 14 CFG, the abstract interpreter (LP entailment accepted only with an exactly verified Farkas certificate), the tabled (pointer,size) pairs, libc contracts of memchr/memmem/memcpy; mathematical integers except where unsigned subtraction is explicit.",
          "static analysis: relational abstract interpretation over the clang CFG (zones-like linear domain with congruences), custom lints"),
- "C13": ("Same engine as C12 over the DNS, RADIUS, DHCPv4, HTTP, SDP, SAP, RTP and MPEG-TS parsers: per access proved / reported / undecided (listed, not claimed); loop progress; short-circuit order; compression-pointer walks bounded by a jump counter.",
+ "C13": ("Same engine as C12 over the DNS, RADIUS, DHCPv4, HTTP, SDP, SAP, RTP and MPEG-TS parsers: per access proved / reported / undecided (listed, not claimed); loop progress; short-circuit order; compression-pointer walks bounded by a jump counter. Round 3: header locators (sap_packet_get_payload, sap_packet_get_auth_data) never point past a packet sap_packet_is_valid accepts (R-AGREE, full enumeration of the header fields); network-order length/count fields are converted before arithmetic or ordering comparisons (R-ENDIAN).",
          "As C12; accesses whose capacity is a field of the packet itself are mostly outside the domain and listed as undecided/untracked.",
          "static analysis: relational abstract interpretation over the clang CFG, custom lints"),
  "C14": ("Structural clauses only: Base64 alphabet = RFC 4648 and decode table = its inverse; pow10lst[k] = 10^k; every CRC-32 table regenerated from the polynomial in its name (256- and 16-entry forms); XML entity / HTTP method / reason-phrase tables agree with their length tables; the decimal digit counter keeps counting at exact powers of ten; no signed negation of the minimum; utf8_decode's reported length depends on its output. Round-trip / inverse equality of the produced bytes is NOT decided.",
